@@ -294,8 +294,8 @@ def twin_c10(cls, t, hist, r=None):
         kinds.append('later-op-differs')
     kinds += diff_obs(a, b, t)
     if kinds:
-        return ('twin:' + '+'.join(kinds), {'failed_ops': [hist[i] for i in failed],
-                                            'failed_status': [r.status[i] for i in failed]})
+        return (['twin:' + k for k in kinds], {'failed_ops': [hist[i] for i in failed],
+                                              'failed_status': [r.status[i] for i in failed]})
     return None
 
 
@@ -314,7 +314,7 @@ def twin_c16(cls, t, hist, r=None):
         kinds.append('later-op-differs')
     kinds += diff_obs(a, b, t)
     if kinds:
-        return ('serialisation-side-effect:' + '+'.join(kinds), {'ic': sorted({bool(hist[i][1]) for i in strs})})
+        return (['serialisation-side-effect:' + k for k in kinds], {'ic': sorted({bool(hist[i][1]) for i in strs})})
     return None
 
 
@@ -335,7 +335,7 @@ def twin_c11(cls, t, hist, r=None):
     kinds = diff_obs(a, b, t)
     kinds = [k for k in kinds if k != 'views'] + (['order'] if a['ordered'] != b['ordered'] else [])
     if kinds:
-        return ('removal-residue:' + '+'.join(kinds), {'survivors': survivors})
+        return (['removal-residue:' + k for k in kinds], {'survivors': survivors})
     return None
 
 
@@ -397,20 +397,21 @@ def decide(cls, t, hist, props):
     """all violations of the requested properties on this history: list of (prop, kind, detail)"""
     r = replay(cls, t, hist, props)
     out = [(p, k, dict(dt, at=i)) for p, k, i, dt in r.viol]
+    # a twin may differ in several observables at once: one violation per atomic kind
     if 'C10' in props:
         v = twin_c10(cls, t, hist, r)
         if v:
-            out.append(('C10', v[0], v[1]))
+            out += [('C10', k, v[1]) for k in v[0]]
     if 'C11' in props:
         v = twin_c11(cls, t, hist, r)
         if v and v[0] != 'inconclusive':
-            out.append(('C11', v[0], v[1]))
+            out += [('C11', k, v[1]) for k in v[0]]
         elif v:
             r.viol.append(('C11', 'inconclusive', len(hist) - 1, v[1]))
     if 'C16' in props:
         v = twin_c16(cls, t, hist, r)
         if v:
-            out.append(('C16', v[0], v[1]))
+            out += [('C16', k, v[1]) for k in v[0]]
     return out, r
 
 
